@@ -46,9 +46,12 @@ ASSUMPTIONS = [
     "make trace_chains raise ValueError in its label lookups `motl.df.loc[motl.df.index[k], 'subtomo_id']`; permuted, reversed, gapped and "
     "string-label indexes are handled and are generated)",
     "site = (x+shift_x, y+shift_y, z+shift_z) of the respective list; distance = Euclidean norm in float64; tolerance 1e-9 on the recorded value",
-    "inputs with any candidate exit->entry distance (same tomogram, different particles) within 1e-6 of min_distance or max_distance are "
-    "regenerated (generator) / counted out of domain (monitor uses 1e-9); ties between candidates are NOT excluded (the clauses do not depend "
-    "on which candidate wins)",
+    "bounds: exact ties are JUDGED - when both sites of a pair and both bounds lie on the 1/8 lattice (|value| < 2**20) d^2, min^2, max^2 are exact "
+    "in float64 and the interval is decided on the squares: d == min_distance is outside (exclusive lower bound: such a link is a link_range "
+    "violation), d == max_distance is inside (such a link is allowed, not demanded); only INEXACT near-ties (|d - bound| <= 1e-9 for a pair that "
+    "is not on the lattice; generator: 1e-6) are regenerated / counted out of domain; ties between candidates are never excluded",
+    "measured on class lattice_ties: sklearn's KD-tree returns integer-offset distances exactly (3-4-5 -> 5.0), pairs exactly at max ARE linked by "
+    "cryoCAT and recorded exactly, pairs exactly at min never are",
     "the value recorded on the LAST member of a chain is not constrained by the property (cryoCAT leaves stale values there after a cut) "
     "and is not judged; object numbers need not be contiguous",
     "the false side of `if cl_max > 1` in trace_chains is unreachable (after a successful suffix join every order number of the new chain is "
